@@ -97,7 +97,7 @@ def random_history(rnd, n, provoke=False):
             if not provoke:
                 flush()
             if rnd.random() < 0.6:
-                ops.append(op('tempo', *rnd.choice(TEMPOS)))
+                ops.append(op(rnd.choice(('tempo', 'tempo', 'etempo')), *rnd.choice(TEMPOS)))
             else:
                 cur = rnd.randint(-40, 400)
                 ops.append(op('beats', cur))
@@ -147,7 +147,7 @@ def nontrivial(h):
     """a query or play after at least one tempo / beats / meter change"""
     changed = False
     for o in h['ops']:
-        if o['op'] in ('tempo', 'beats', 'meter'):
+        if o['op'] in ('tempo', 'etempo', 'beats', 'meter'):
             changed = True
         elif changed and o['op'] not in ('adv',):
             return True
